@@ -331,7 +331,9 @@ Fixpoint work (fuel : nat) (tbl : list (string * list string)) (queue names done
   end.
 
 (* _get_sorted_fragments_names.  dict = the generated names (keys of dependencies_dict): visiting a
-   name outside it is a KeyError (None).  o = iteration order of a dependency set. *)
+   name outside it is a KeyError (None).  o = iteration order of a dependency set: since /repo 93e79d6
+   the code iterates sorted(dependencies_dict[name]), i.e. o = id_oracle (sort_uniq is applied before o);
+   the oracle is kept because toposort_sound holds for every iteration order. *)
 Definition oracle := string -> list string -> list string.
 
 Fixpoint visit (fuel : nat) (tbl : list (string * list string)) (dict : list string) (o : oracle)
